@@ -20,7 +20,8 @@ type rawPeer struct {
 	mu sync.Mutex
 
 	// client role
-	cstream tunnelpb.TunnelService_OpenTunnelClient
+	cstream rawCStream
+	revHang chan struct{} // reverse direction: closed when the raw peer (a network server there) hangs up
 	gotSettings bool
 	recvDone    bool
 	recvErr     error
@@ -135,6 +136,75 @@ func (w *World) serverFrame(f RawFrame, id int64) *tunnelpb.ServerToClient {
 	case "nil":
 	}
 	return m
+}
+
+// rawCStream: the raw client's end of the carrier. In a forward tunnel it is the network client's stream; in a reverse
+// tunnel the peer that speaks the client role of the tunnel protocol is the network SERVER (OpenReverseTunnel handler), whose
+// stream has the same two methods.
+type rawCStream interface {
+	Send(*tunnelpb.ClientToServer) error
+	Recv() (*tunnelpb.ServerToClient, error)
+}
+
+// rawRevHandler: the network server of a reverse tunnel whose tunnel-protocol client is the raw script; the real endpoint under
+// test is ReverseTunnelServer.Serve.
+type rawRevHandler struct {
+	tunnelpb.UnimplementedTunnelServiceServer
+	w     *World
+	ready chan struct{}
+}
+
+func (h *rawRevHandler) OpenReverseTunnel(st tunnelpb.TunnelService_OpenReverseTunnelServer) error {
+	rp := h.w.raw
+	if h.w.c.Raw.Negotiate {
+		_ = st.SendHeader(metadata.Pairs("grpctunnel-negotiate", "on"))
+	} else {
+		_ = st.SendHeader(metadata.MD{})
+	}
+	rp.cstream = st
+	close(h.ready)
+	go rp.clientRecvLoop()
+	<-rp.revHang
+	return nil
+}
+
+func (w *World) setupRawClientReverse() bool {
+	rp := &rawPeer{w: w, revHang: make(chan struct{})}
+	w.raw = rp
+	h := &rawRevHandler{w: w, ready: make(chan struct{})}
+	w.net.RegisterService(&tunnelpb.TunnelService_ServiceDesc, h) // replaces the real handler registered by setup
+	w.mu.Lock()
+	t := &tunnelState{idx: 0}
+	t.rec = &TunnelRec{Idx: 0, Kind: "rev", Carrier: -1, DoneStep: -1, ServeReturned: -1, Revision: -1}
+	w.tunnels = append(w.tunnels, t)
+	w.tr.Tunnels = append(w.tr.Tunnels, t.rec)
+	w.mu.Unlock()
+	ctx := metadata.AppendToOutgoingContext(context.Background(), "x-verif-tunnel", "0")
+	t.openCtx, t.cancel = context.WithCancel(ctx)
+	opts := w.connOpts(TunnelSpec{Peer: "raw.revserver:1"})
+	opts.StripReqNegotiate, opts.StripRespNegotiate = false, false
+	t.conn = w.net.Conn(opts)
+	rs := &revServer{idx: 0, conn: t.conn}
+	rs.rs = grpctunnel.NewReverseTunnelServer(tunnelpb.NewTunnelServiceClient(t.conn), fcOpt(w.c.Cfg.ServerFC)...)
+	rs.rs.RegisterService(&svcDesc, &Instance{w: w, idx: 0})
+	w.mu.Lock()
+	w.servers = append(w.servers, rs)
+	t.server = rs
+	w.mu.Unlock()
+	go w.serveLoop(t)
+	w.settle()
+	select {
+	case <-h.ready:
+	default:
+		t.rec.OpenErr = "the reverse tunnel never reached the raw network server"
+		return false
+	}
+	t.rec.Opened, t.rec.ServeStarted = true, true
+	if cs := t.conn.Created(); len(cs) > 0 {
+		t.carrier = cs[len(cs)-1]
+		t.rec.Carrier = t.carrier.Idx
+	}
+	return true
 }
 
 // ---------------------------------------------------------------------------
@@ -272,7 +342,11 @@ func (w *World) rawHangUp() {
 	w.nextStep()
 	switch w.c.Raw.Role {
 	case "client":
-		_ = w.raw.cstream.CloseSend()
+		if w.raw.revHang != nil {
+			close(w.raw.revHang) // the raw network server's handler returns: the carrier ends with status OK
+		} else if cs, ok := w.raw.cstream.(interface{ CloseSend() error }); ok {
+			_ = cs.CloseSend()
+		}
 	case "server":
 		close(w.raw.hangUp)
 	}
